@@ -1,3 +1,113 @@
+(* C10 - zone transactions match a reference model and are all-or-nothing.
+   Model: Model/TxnM.v.  `impl_hist` is dns.transaction.Transaction over the zone's WritableVersion
+   (validated / relativized keys, copy-on-write node map, Node list surgery); `spec_hist` is the same
+   transaction front-end over the flat reference store (absolute owner, rdataset) with declarative
+   CNAME/other-data exclusivity.  Proofs: Proofs/Txn*.v. *)
 From DV Require Import Base.Prelude Model.NameM Model.TxnM.
-Example c10_model_runs : TxnM.run (L [L [I 0; I 1; L [B [101]; B []]]; L []; L []]) = L [].
-Proof. reflexivity. Qed.
+From DV Require Import Proofs.NameValid Proofs.TxnName Proofs.TxnStore Proofs.TxnLow Proofs.TxnSim Proofs.TxnThm.
+Open Scope Z_scope.
+
+(* Any history of transactions - every operation and argument form, manual commit/rollback or with-block,
+   an exception injected after any index - gives on the zone model and on the reference store the same
+   result for every call (values and exception classes), and published zones that stay related after
+   every transaction. *)
+Theorem refines :
+  forall c h z l, wfc c -> Forall spec_valid h -> RP c z l ->
+  Forall2 (ROut (RP c)) (impl_hist c h z) (spec_hist c h l).
+Proof. exact refines_hist. Qed.
+Print Assumptions refines.
+
+(* "related" for an observer: Zone.get_node(name) shows, for every owner name in either spelling, exactly
+   the rdatasets of the reference store for that owner *)
+Theorem related_zones_look_the_same :
+  forall c z l n, wfc c -> Valid n -> RP c z l -> zone_get_node c z n = ref_node c l n.
+Proof. exact RP_observe. Qed.
+Print Assumptions related_zones_look_the_same.
+
+(* empty nodes are removed *)
+Theorem empty_nodes_removed :
+  forall c z l n nd, wfc c -> Valid n -> RP c z l -> zone_get_node c z n = Some nd -> nd <> [].
+Proof. exact RP_no_empty_node. Qed.
+Print Assumptions empty_nodes_removed.
+
+(* all-or-nothing: a with-block left through an exception, raised by an operation or injected by the
+   caller after any index, leaves the published zone exactly as it was (for any store) *)
+Theorem atomic :
+  forall P S (st : store P S) c ops fault z t outs z',
+  no_commit ops -> run_with st c ops fault z t = (outs, z') -> existsb is_err outs = true -> z' = z.
+Proof. exact @atomic_with_abort. Qed.
+Print Assumptions atomic.
+
+Theorem atomic_every_crash_point :
+  forall P S (st : store P S) c ops k z t, no_commit ops -> snd (run_with st c ops (Some k) z t) = z.
+Proof. exact @atomic_crash_point. Qed.
+Print Assumptions atomic_every_crash_point.
+
+Theorem atomic_without_commit :
+  forall P S (st : store P S) c ops z t, no_commit ops -> snd (run_manual st c ops z t) = z.
+Proof. exact @atomic_manual_no_commit. Qed.
+Print Assumptions atomic_without_commit.
+
+(* ended transactions refuse every call; read-only transactions refuse every write *)
+Theorem ended_refuses_all :
+  forall P S (st : store P S) c o z t, t_ended t = true -> step st c o z t = Lib eAlreadyEnded.
+Proof. exact @ended_refuses. Qed.
+Print Assumptions ended_refuses_all.
+
+Theorem commit_and_rollback_end :
+  forall P S (st : store P S) commit z t z' t', hl_end st commit z t = Ok (z', t') -> t_ended t' = true.
+Proof. exact @end_ends. Qed.
+Print Assumptions commit_and_rollback_end.
+
+Theorem readonly_refuses_writes :
+  forall P S (st : store P S) c o z t,
+  t_ended t = false -> t_ro t = true -> is_write o = true -> step st c o z t = Lib eReadOnly.
+Proof. exact @readonly_refuses. Qed.
+Print Assumptions readonly_refuses_writes.
+
+Theorem readonly_changes_nothing :
+  forall P S (st : store P S) c o z t x z' t',
+  t_ro t = true -> step st c o z t = Ok (x, z', t') -> z' = z /\ t_st t' = t_st t /\ t_ro t' = true.
+Proof. exact @readonly_never_changes. Qed.
+Print Assumptions readonly_changes_nothing.
+
+(* ---------------------------------------------------------------- non-vacuity *)
+Definition ex_origin : name := [[101; 120]; []].                    (* ex. *)
+Definition ex_cfg : cfg := mkCfg 0 true ex_origin.
+
+Example ex_wfc : wfc ex_cfg.
+Proof.
+  split; [|reflexivity]. repeat split.
+  - repeat constructor; cbn; lia.
+  - cbn. lia.
+  - repeat constructor. discriminate.
+Qed.
+
+Example ex_related : RP ex_cfg [] [].
+Proof. apply RP_empty. Qed.
+
+Definition ex_www : name := [[119]].                               (* w   (relative) *)
+Definition ex_www_abs : name := [[119]; [101; 120]; []].           (* w.ex. *)
+Definition ex_a : rds := mkRds 1 1 0 300 [(1, 0)].
+Definition ex_hist : list txnspec :=
+  [ mkSpec 0 1 [OAdd [AName ex_www; ARds ex_a]] None;                                   (* committed *)
+    mkSpec 0 1 [ODelete [AName ex_www_abs; AInt 1]; OExists (AName ex_www)] (Some 2%nat) ]. (* aborted  *)
+
+Example ex_valid : Forall spec_valid ex_hist.
+Proof.
+  assert (Valid ex_www) by (repeat split; [repeat constructor; cbn; lia|cbn; lia|constructor]).
+  assert (Valid ex_www_abs).
+  { repeat split; [repeat constructor; cbn; lia|cbn; lia|repeat constructor; discriminate]. }
+  unfold ex_hist. constructor; [|constructor; [|constructor]]; unfold spec_valid; cbn [x_ops].
+  - constructor; [|constructor]. cbn [op_valid]. constructor; [exact H|constructor; [exact Logic.I|constructor]].
+  - constructor; [|constructor; [|constructor]]; cbn [op_valid arg_valid]; auto.
+    constructor; [exact H0|constructor; [exact Logic.I|constructor]].
+Qed.
+
+(* the last rdataset of a node deleted through the absolute spelling, in a relativized zone (the
+   sequence that raised KeyError before fix ea85fed), then the abort leaves the committed content *)
+Example ex_run :
+  map (fun x => (map obs_of_out (fst x), snd x)) (impl_hist ex_cfg ex_hist []) =
+  [ ([N], [(ex_www, [ex_a])]);
+    ([N; ob false; E eInjected], [(ex_www, [ex_a])]) ].
+Proof. vm_compute. reflexivity. Qed.
